@@ -96,7 +96,7 @@ def new_agg():
     return {"runs": 0, "nontrivial": 0, "steps": 0, "switches": 0, "stalls": 0, "vtime": 0.0,
             "probes": {}, "digests": set(), "sched_digests": set(), "pairs": set(),
             "aborts": {}, "viol": [], "findings": {}, "samples": [], "run_wall": 0.0,
-            "last_run": 0, "nviol": 0, "locs": {}, "first_digests": {}}
+            "last_run": 0, "nviol": 0, "locs": {}, "first_digests": {}, "excused": {}}
 
 
 def fold(agg, lane, scn, res, run, wall):
@@ -122,6 +122,8 @@ def fold(agg, lane, scn, res, run, wall):
         agg["first_digests"][run] = "%s:%s:%s" % (scn_hash(scn), res["digest"], ",".join(vclasses(res)))
     for f in res.get("findings", ()):
         agg["findings"][f] = agg["findings"].get(f, 0) + 1
+    for f in res.get("excused", ()):
+        agg["excused"][f] = agg["excused"].get(f, 0) + 1
     if any(v["cls"] == "harness" for v in res["viol"]):
         # wall-clock kill or trip-wire: a defect of the machinery, never a result
         agg.setdefault("harness", []).append("run %s: %s" % (run, [v["detail"] for v in res["viol"]
@@ -139,7 +141,7 @@ def fold(agg, lane, scn, res, run, wall):
 def merge(a, b):
     for kk in ("runs", "nontrivial", "steps", "switches", "stalls", "vtime", "run_wall", "nviol"):
         a[kk] += b[kk]
-    for kk in ("probes", "aborts", "findings", "locs"):
+    for kk in ("probes", "aborts", "findings", "locs", "excused"):
         for x, v in b[kk].items():
             a[kk][x] = a[kk].get(x, 0) + v
     a["first_digests"].update(b["first_digests"])
@@ -315,6 +317,30 @@ def minimise(lane, scn, decisions, want_cls, max_execs=700, max_wall=75.0, rescu
     return best[0], best[1], execs[0]
 
 
+def guard_violations(lane, sub, stats):
+    out = []
+    runs = stats["runs"]
+    if runs < 100:
+        return out
+    for (gsub, kind, tag), (max_frac, floor) in getattr(lane, "RATE_GUARDS", {}).items():
+        if gsub != sub:
+            continue
+        n = stats[kind].get(tag, 0)
+        if n > max(floor, max_frac * runs):
+            out.append({"cls": "finding-rate-guard", "sub": sub, "kind": kind, "tag": tag, "count": n, "runs": runs,
+                        "allowed": max(floor, int(max_frac * runs))})
+    return out
+
+
+def write_batch_replay(lane, seed, tier, sub, nruns, g):
+    os.makedirs(REPLAYS, exist_ok=True)
+    path = os.path.join(REPLAYS, "%s-batch-%s-%s-%s.json" % (lane.prop, seed, sub, g["tag"].replace(":", "_")))
+    doc = {"property": lane.prop, "batch": {"seed": seed, "tier": tier, "sub": sub, "nruns": nruns}, "expect": g}
+    with open(path, "w") as f:
+        json.dump(doc, f, indent=1, sort_keys=True)
+    return path
+
+
 def write_replay(lane, scn, decisions, res, seed, run, tag="v"):
     os.makedirs(REPLAYS, exist_ok=True)
     path = os.path.join(REPLAYS, "%s-%s-%s-%s.json" % (lane.prop, tag, seed, run))
@@ -387,6 +413,19 @@ def main(lane, argv=None):
 
 
 def do_replay(lane, path, quiet):
+    doc0 = json.load(open(path))
+    if "batch" in doc0:
+        b = doc0["batch"]
+        agg, errs = run_batch(lane, b["seed"], b["tier"], b["sub"], b["nruns"], os.cpu_count() or 4, 3600)
+        stats = {"runs": agg["runs"], "findings": dict(agg["findings"]), "excused": dict(agg["excused"])}
+        gv = guard_violations(lane, b["sub"], stats)
+        print("REPLAY batch sub=%s runs=%d findings=%s excused=%s" % (b["sub"], agg["runs"], stats["findings"], stats["excused"]))
+        if gv:
+            for g in gv:
+                print("  ", jdump(g))
+            print("VIOLATION property=%s replay=%s" % (lane.prop, path))
+            return 1
+        return 0
     doc, res = replay_file(lane, path)
     want = doc["expect"]["classes"]
     got = vclasses(res)
@@ -466,7 +505,14 @@ def do_check(lane, seed, tier, a):
         agg, errs = run_batch(lane, seed, tier, sub, nruns, a.jobs, budget * nruns / weights + 15)
         errors.extend(errs)
         per_sub[sub] = {"runs": agg["runs"], "planned": nruns, "violating_runs": agg["nviol"],
-                        "nontrivial": agg["nontrivial"], "findings": dict(agg["findings"])}
+                        "nontrivial": agg["nontrivial"], "findings": dict(agg["findings"]),
+                        "excused": dict(agg["excused"])}
+        # rate guard: a known finding may excuse only about as many runs as it does on the
+        # unchanged tree; a change that makes the excuse necessary far more often is hiding
+        # behind the finding (DESIGN.md 4)
+        for g in guard_violations(lane, sub, per_sub[sub]):
+            path = write_batch_replay(lane, seed, tier, sub, nruns, g)
+            out_viol.append((path, [g["cls"]]))
         for v in agg["viol"]:
             v["sub"] = sub
         # the same run indices executed in a forked worker among 15 siblings must give the
